@@ -58,7 +58,7 @@ def eq_ob(name, pc, got, want, mv, key, timeout=20000, sample=False):
     if same(got, want): return ob(name, 'discharged', detail='structurally identical to the definition', key=key)
     return prove(name, pc, toR(got) == toR(want), timeout, mv, key=key, sample=sample)
 
-def native_la(ctx, op, A, B=None, s=0.0, i=0, j=0, C=None, D=None, shapeA=None, shapeB=None, vecA=False, vecB=False):
+def native_la(ctx, op, A, B=None, s=0.0, i=0, j=0, C=None, D=None, shapeA=None, shapeB=None, vecA=False, vecB=False, read_globals=()):
     so = native(ctx)
     def prep(M, shape, isvec):
         if M is None: return (shape or (0, 0)) + ([0.0],) if shape else (0, 0, [0.0])
@@ -68,7 +68,7 @@ def native_la(ctx, op, A, B=None, s=0.0, i=0, j=0, C=None, D=None, shapeA=None, 
         return (r, c, flat(M) or [0.0])
     r1, c1, fa = prep(A, shapeA, vecA); r2, c2, fb = prep(B, shapeB, vecB)
     r = nat.call(so, 'verif_la', [('i32', op), ('u32', r1), ('u32', c1), ('dbl[]', fa), ('u32', r2), ('u32', c2), ('dbl[]', fb), float(s), ('u32', i), ('u32', j),
-                                  ('dbl[]', flat(C) if C else [0.0]), ('dbl[]', flat(D) if D else [0.0]), ('dbl[]', [0.0] * 64), ('u32[]', [0] * 4)], restype='int')
+                                  ('dbl[]', flat(C) if C else [0.0]), ('dbl[]', flat(D) if D else [0.0]), ('dbl[]', [0.0] * 64), ('u32[]', [0] * 4)], restype='int', read_globals=read_globals)
     if r['status'] == 'ok':
         r['shape'] = r['arrays'][5]; r['out'] = r['arrays'][4]
     return r
